@@ -16,8 +16,8 @@ func init() {
 	mc.Register(&mc.Property{
 		ID:    "C08",
 		Title: "save reserves funds",
-		Rule: "(a) all statement sequences of length <= L over the statement alphabet (saves of 0/1/2/5/-1/all, sends, send-all, bounded overdraft, money flowing back, second asset) x all initial sheets; (b) breadth-first search over histories to depth D from every initial sheet, deduplicated on the visible balance vector; " +
-			"oracle: every statement after a save posts exactly what the reference semantics posts with the saved account's visible balance lowered by the save rule (never raised, never below zero unless already negative); save emits no posting; negative save rejected; statements attributed through prefix runs; " +
+		Rule: "(a) all statement sequences of length <= L over the statement alphabet (saves of 0/1/2/5/-1/all, sends, send-all, bounded overdraft, money flowing back, second asset) x all initial sheets; (b) breadth-first search over histories to depth D from every initial sheet, deduplicated on the visible balance vector; (c) sequences over the edge-relation alphabet (overdraft bound 0 / negative, saving exactly the balance, world:fees) and over statements sharing variables; " +
+			"oracle: every statement after a save posts exactly what the reference semantics posts with the saved account's visible balance lowered by the save rule (never raised, never below zero unless already negative); save emits no posting; negative save rejected; a script that only the saved funds could have paid for (funded without its save statements, unfunded with them) must fail; statements attributed through prefix runs; " +
 			"non-trivial = the script contains a save that changed a visible balance and a later send drawing on that account; distinct = script text + sheet",
 		Assumptions: []string{"BFS deduplication merges histories with the same visible balance vector; the un-deduplicated levels (a) establish that this vector determines the future"},
 		QuickBudget: 70 * time.Second,
